@@ -9,6 +9,8 @@ import (
 	"strconv"
 	"strings"
 	"sync"
+	"sync/atomic"
+	"time"
 
 	"github.com/0chain/common/core/logging"
 	"go.uber.org/zap"
@@ -90,6 +92,16 @@ func c20sequential(c *fw.Ctx) {
 		c.Count("histories_on_adjustable_level", 1)
 	} else {
 		ml, root = newMemLogger()
+	}
+	if c.Idx%8 == 2 || c.Idx%8 == 6 {
+		// a coarse clock: many consecutive entries carry the same timestamp (every 25th write ticks, or the clock stands
+		// still). "Newest first" is the order of writing, not of the time stamps
+		every := int64(25)
+		if c.Idx%8 == 6 {
+			every = 1 << 40
+		}
+		root = root.WithOptions(zap.WithClock(&coarseClock{every: every}))
+		c.Count("histories_on_a_coarse_clock", 1)
 	}
 	loggers := []*zap.Logger{root}
 	names := []string{"root"}
@@ -280,6 +292,18 @@ func c20sequential(c *fw.Ctx) {
 		c.Sample(map[string]any{"total_written": total, "capacity": capacity, "derivations": events, "newest_first_head": head(snapshotIDs(ml), 5)})
 	}
 }
+
+// coarseClock ticks once every `every` calls.
+type coarseClock struct {
+	n     int64
+	every int64
+}
+
+func (k *coarseClock) Now() time.Time {
+	n := atomic.AddInt64(&k.n, 1)
+	return time.Unix(1700000000+n/k.every, 0)
+}
+func (k *coarseClock) NewTicker(d time.Duration) *time.Ticker { return time.NewTicker(d) }
 
 // yieldingBuffer collects what is written to it and yields the processor before copying the bytes.
 type yieldingBuffer struct{ bytes.Buffer }
@@ -498,13 +522,13 @@ func init() {
 		// a concurrent run normally takes well under a second; if no case completes for 120 s (writers or a dump blocked
 		// for good) the worker stops and the driver reports the case
 		StallSeconds: 120,
-		Rule: "sequential histories: a root zap.Logger on MemLogger.GetCore() (half of them on an adjustable zap.AtomicLevel that is changed mid-stream: a write counts iff its level is enabled at that moment; half of these build the logger on a tee of the buffer and a core that takes every level, as InitLogging does; a quarter of the reads also compare level and call fields of every entry) and 0..4 loggers derived with With(fields) from the root or from each other, created before any write, mid-stream or after the ring wrapped; writes interleaved through all loggers, each with a unique id; totals 0, 1, 2, 17, capacity-1, capacity, capacity+1, 2*capacity, 2*capacity+3, 5000 and random " +
+		Rule: "sequential histories (a quarter of them on a coarse clock: 25 consecutive entries, or all, carry the same timestamp): a root zap.Logger on MemLogger.GetCore() (half of them on an adjustable zap.AtomicLevel that is changed mid-stream: a write counts iff its level is enabled at that moment; half of these build the logger on a tee of the buffer and a core that takes every level, as InitLogging does; a quarter of the reads also compare level and call fields of every entry) and 0..4 loggers derived with With(fields) from the root or from each other, created before any write, mid-stream or after the ring wrapped; writes interleaved through all loggers, each with a unique id; totals 0, 1, 2, 17, capacity-1, capacity, capacity+1, 2*capacity, 2*capacity+3, 5000 and random " +
 			"(capacity read from logging.BufferSize). After every 257th write, at the capacity boundary and at the end GetLogs() must equal exactly the last min(total, capacity) ids, newest first; WriteLogs at detail 1..3 must print the same ids in the same order. " +
 			"concurrent histories (race binary): 2..8 goroutines write unique ids through a mix of root and derived loggers (some derived mid-stream), GOMAXPROCS in {1,2,4,16}; at quiescence exactly min(total, capacity) distinct written entries, per writer a suffix of its writes in newest-first order; in half of the runs one or two goroutines call GetLogs/WriteLogs concurrently (WriteLogs into a writer that yields the processor inside every Write; printed lines = well-formed ids) and every snapshot must be duplicate-free, " +
 			"made of written ids, per-writer newest-first. Race reports are violations. non-trivial = history with at least one derived logger (sequential) / every concurrent run",
 		Cases: func(tier string) int { s, cc := c20layout(tier); return s + cc },
 		Run:   runC20,
-		Floors: map[string]int64{"sequential_histories": 4500, "histories_on_adjustable_level": 2000, "histories_with_the_buffer_beside_a_verbose_core": 1000, "level_changes": 20000, "writes_below_the_level": 100000, "snapshots_compared_in_detail": 20000, "held_snapshots_rechecked": 100000, "read_gap:capacity": 300, "read_gap:2xcapacity": 300, "read_gap:1": 200, "snapshots_compared": 10000, "derived_loggers": 5000, "histories_above_capacity": 1500, "concurrent_runs": 200, "concurrent_runs_above_capacity": 50,
+		Floors: map[string]int64{"sequential_histories": 4500, "histories_on_adjustable_level": 2000, "histories_on_a_coarse_clock": 1000, "histories_with_the_buffer_beside_a_verbose_core": 1000, "level_changes": 20000, "writes_below_the_level": 100000, "snapshots_compared_in_detail": 20000, "held_snapshots_rechecked": 100000, "read_gap:capacity": 300, "read_gap:2xcapacity": 300, "read_gap:1": 200, "snapshots_compared": 10000, "derived_loggers": 5000, "histories_above_capacity": 1500, "concurrent_runs": 200, "concurrent_runs_above_capacity": 50,
 			"concurrent_runs_with_snapshots": 90, "entries_written": 3000000},
 		Assumptions: []string{"capacity is read from the exported constant logging.BufferSize", "a case in which writers or GetLogs/WriteLogs do not return for 120 s (normal: milliseconds) is reported as a violation: the buffer no longer returns its entries", "race freedom = no report from the Go race detector on the interleavings that occurred"},
 	})
